@@ -482,6 +482,32 @@ def stepLine (st : State) (w : List String) : State × String :=
         (r2.ok, applyRadix radix (r2.cfg.write Generated.FLOAT_BUF_SIZE))
       (st, s!"{b2s rd.ok} {hex out} {b2s r2.1} {b2s (r2.2 == out)} {b2s (l2.thread == l.thread)} {b2s (l2.globalRadix == l.globalRadix)} {l.effective} {l2.effective}")
     | _, _, _ => (st, "bad-op")
+  | ["loccase", g, t, entry, text, o, pr] =>
+    -- the same with an option word and a float precision set on both configurations before the calls
+    -- C15: read + write + write_file/read_file round trip under a locale set-up
+    match g.toNat?, t.toNat?, unhex text, o.toNat?, pr.toNat? with
+    | some g, some t, some text, some o, some pr =>
+      let c0 : Config := { Config.init with options := o % 4294967296, floatPrecision := pr }
+      let l : LocaleState := { globalRadix := if g != 0 then 44 else 46, thread := if t != 0 then some 44 else none }
+      let src : Source := match entry with
+        | "string" => .string text
+        | "stream" => .stream text
+        | _ => .file (bytesOfString "in.cfg")
+      let w : World := { files := [(bytesOfString "in.cfg", some text)] }
+      -- every number is parsed / formatted with the radix the thread sees between override and restore
+      let (r, l1) := withCLocale l fun radix =>
+        let r := match entry with
+          | "failstream" => readFailingStream w c0 text readFuel
+          | "badfile" => readWithFailingFile w c0 (.file (bytesOfString "/proc/self/mem")) (bytesOfString "/proc/self/mem") [] readFuel
+          | "missing" => read w c0 (.file (bytesOfString "no-such-file.cfg")) readFuel
+          | _ => read w c0 src readFuel
+        (r, applyRadix radix (r.cfg.write Generated.FLOAT_BUF_SIZE))
+      let (rd, out) := r
+      let (r2, l2) := withCLocale l1 fun radix =>
+        let r2 := read { files := [(bytesOfString "out.cfg", some out)] } c0 (.file (bytesOfString "out.cfg")) readFuel
+        (r2.ok, applyRadix radix (r2.cfg.write Generated.FLOAT_BUF_SIZE))
+      (st, s!"{b2s rd.ok} {hex out} {b2s r2.1} {b2s (r2.2 == out)} {b2s (l2.thread == l.thread)} {b2s (l2.globalRadix == l.globalRadix)} {l.effective} {l2.effective}")
+    | _, _, _, _, _ => (st, "bad-op")
   | ["locoverlap", g, t] =>
     -- C15 x C14: the multi-thread locale model (LocaleThreads.lean; theorems C15T_inside / C15T_outer / C15T_global) run on
     -- the scenario's schedule; the radix each thread has at each point decides what strtod reads and what printf writes
@@ -644,6 +670,15 @@ def stepLine (st : State) (w : List String) : State × String :=
         (st', showOut op o)
       | _, _ => (st, "bad-op")
     | _, _ => (st, "bad-op")
+  | ["read_fifo", t] =>
+    -- config_read_file on a FIFO delivering these bytes: a file of that name with that content (C20: the same result)
+    match unhex t with
+    | some t =>
+      let (st1, _) := step st (Op.mkfile (bytesOfString "in.cfg") t)
+      let op := Op.read (.file (bytesOfString "in.cfg"))
+      let (st', o) := step st1 op
+      (st', showOut op o)
+    | none => (st, "bad-op")
   | ["read_alias", how, what] =>
     -- config_read_file / config_read_string whose argument is owned by the configuration (config_error_file(), a string
     -- value): the argument is copied before the old contents go, so it is an ordinary read of those bytes
